@@ -1,4 +1,4 @@
-from registry import H, kani_unit, verus_unit, PROPS, UNITS
+from registry import H, kani_unit, verus_unit, native_unit, PROPS, UNITS
 
 F64 = "math/src/field/f64/mod.rs"
 kani_unit("f64", "winter-math", F64, "kani/math_f64.rs", "field::f64", [
@@ -134,3 +134,8 @@ PROPS["C08"] = dict(
                "values only), slice reinterpretation.",
     explanation="",
 )
+
+native_unit("poly_native", "winter-math", "math", "native/poly_bounded.rs", ["C20"],
+            ["polynom::{eval, eval_many, add, sub, mul, mul_by_scalar, div, syn_div, syn_div_in_place, syn_div_roots_in_place, interpolate, interpolate_batch, poly_from_roots, degree_of, remove_leading_zeros}", "utils::{get_power_series, get_power_series_with_offset, add_in_place, mul_acc, batch_inversion}"],
+            "every function agrees with its defining identity, checked against a naive reference written in the stand-in (schoolbook product, evaluation by explicit powers): sums / differences / products / scalar multiples, quotient * divisor + remainder = dividend with deg remainder < deg divisor (long, synthetic by x^a - b, by roots), interpolation passes through the points with degree < n, expansion from roots is the monic product, degrees, power series, in-place accumulation, batch inversion with zeros preserved; nothing panics inside the documented domains",
+            "NATIVE EXECUTION, not a proof: polynomials of 0..9 coefficients (0, 1, -1, seeded; zero leading / trailing coefficients) x 6 draws per size pair, all synthetic divisors x^a - b with a < 12, 1..4 roots, 1..9 interpolation points, vectors of 0..40 elements with a zero at every position and of 1023..2049 elements; f64, f128, f62, their quadratic extensions, cubic extensions of f64 and f62")
